@@ -11,7 +11,7 @@ from common import quiet, zlit
 
 NEEDED = ['And2_propagate', 'Or2_propagate', 'Not_propagate', 'Buf_propagate', 'ZeroExtend_propagate', 'Mul_propagate', 'Sub_propagate',
           'AddCarryIn_propagate', 'ShiftLeftConstant_propagate', 'ShiftRightConstant_propagate', 'Mux2_propagate', 'Range_propagate',
-          'Bit_propagate', 'Constant_propagate', 'Div_propagate', 'Mod_propagate', 'SignedMul_propagate', 'Reg_clock',
+          'Bit_propagate', 'Constant_propagate', 'SignExtend_propagate', 'ConcatenateMSBF_propagate', 'ConcatenateLSBF_propagate', 'Repeat_propagate', 'Div_propagate', 'Mod_propagate', 'SignedMul_propagate', 'Reg_clock',
           'IntegerHelper_c2_to_signed']
 
 RESERVED_PREFIX = 'reserved_'
